@@ -1,5 +1,5 @@
 /* C15: secp256k1_ecdsa_s2c_sign, real sign_inner underneath (retry loop closed by the loop contract of
- * hooks/C01_sign_inner_loop.diff; partial correctness).  Every pointer NULL or an object; opening optional.
+ * the unit table (engine/units/C01_more.py, no /repo edit); partial correctness).  Every pointer NULL or an object; opening optional.
  * Replaced: SHA object functions (hash_log.h stream contracts), nonce_function_rfc6979_impl (C01.rfc6979),
  * ecmult_gen / ge_set_gej (assumed, LAST-CALL logs), ec_commit_seckey (C15.ec_commit_seckey), sig_sign (C01.sig_sign).
  * Decided (wiring): ndata = "s2c/ecdsa/data"-tagged hash of s2c_data32 and is the extra data of every RFC 6979 call
@@ -14,7 +14,6 @@
 #define LOG_GE_SET_GEJ_LAST
 #include "assumed_C15.h"
 #include "hash_log.h"
-#define SECP256K1_VERIF_SIGN_LOOP_GHOST NONCE_FN_GHOST, SIG_SIGN_GHOST, EC_COMMIT_SECKEY_GHOST, ECMULT_GEN_LAST_GHOST, SET_GEJ_LAST_GHOST
 #include "src/secp256k1.c"
 #include "post.h"
 
